@@ -173,7 +173,7 @@ fn report(p: P, first: String, local: &mut Local) {
 
 pub fn run() {
 	let cx = ctx();
-	cx.note("rule", json!("gte/lt: ALL 2^16 (major,minor) x ALL 2^16 thresholds (patch varied), gte == lexicographic >=, lt == !gte; display/parse: ALL 2^24 triples for slippi::Version and peppi::Version, parse(display(v)) == v and display is 'a.b.c'; rejection: ALL strings of length <= 6 (thorough: <= 7) over the alphabet {0,1,2,5,6,9,'.','-','+',' ','a'} plus a list of boundary strings, plus a structured sweep (one long component of 1..=24 bytes holding a 2-, 3- or 4-byte character at EVERY byte offset, padded with letters or digits, at every position of 1- to 4-component strings whose other components come from a 12-entry menu): three canonical numerals <= 255 must parse to their value, anything that is not three dot-separated integers in 0..255 must be Err; '+' prefixes and leading zeros may go either way (if Ok, the value must be the denoted one). Every case is a distinct input by construction of the nested enumeration"));
+	cx.note("rule", json!("gte/lt: ALL 2^16 (major,minor) x ALL 2^16 thresholds (patch varied), gte == lexicographic >=, lt == !gte; display/parse: ALL 2^24 triples for slippi::Version and peppi::Version, parse(display(v)) == v and display is 'a.b.c'; rejection: ALL strings of length <= 6 (thorough: <= 7) over the alphabet {0,1,2,5,6,9,'.','-','+',' ','a'} plus a list of boundary strings, plus strings of 4 .. 65,540 components, plus a structured sweep (one long component of 1..=24 bytes holding a 2-, 3- or 4-byte character at EVERY byte offset, padded with letters or digits, at every position of 1- to 4-component strings whose other components come from a 12-entry menu): three canonical numerals <= 255 must parse to their value, anything that is not three dot-separated integers in 0..255 must be Err; '+' prefixes and leading zeros may go either way (if Ok, the value must be the denoted one). Every case is a distinct input by construction of the nested enumeration"));
 	cx.note("exhaustive", json!(true));
 	cx.note("assumptions", json!(["strings longer than the bound and outside the alphabet are represented by the boundary list only"]));
 	// gte: shard by major/minor of the version
@@ -282,6 +282,24 @@ pub fn run() {
 		eval_case("version", o_version, &empty, &p, || format!("{:?}", s), &mut local);
 	}
 	local.merge();
+	// very many components (a count kept in 8 or 16 bits wraps to 3 at 259 and 65,539)
+	{
+		let mut local = Local::default();
+		for n in [4usize, 5, 255, 256, 257, 258, 259, 260, 515, 65_538, 65_539, 65_540] {
+			for tail in ["0", "x", ""] {
+				let mut s = String::from("2.0.0");
+				for _ in 3..n {
+					s.push('.');
+					s.push_str(tail);
+				}
+				let mut p = P { class: "string", s: Some(Arc::from(s.as_str())), ..Default::default() };
+				p.n[0] = 2;
+				let empty = Arc::new(vec![]);
+				eval_case("version", o_version, &empty, &p, || format!("2.0.0 followed by {} more components {:?}", n - 3, tail), &mut local);
+			}
+		}
+		local.merge();
+	}
 	// structured sweep: one long component at each of up to four positions, the others from the small menu
 	let (small, long) = component_menus();
 	let small2 = small.clone();
